@@ -62,7 +62,6 @@ def package(features: list[str], k: int) -> Path:
                                 "def close_account(account: AccountId) -> bool:\n    ...\n")
         files["ledger.py"] = "from histpkXX.accounts import AccountId\n\n\ndef balance(account: AccountId) -> float:\n    ...\n"
         files["zledger.py"] = "from histpkXX.accounts import AccountId\n\n\ndef zbalance(account: AccountId) -> float:\n    ...\n"
-        files["aaledger.py"] = "from histpkXX.accounts import AccountId\n\n\ndef abalance(account: AccountId) -> float:\n    ...\n"
     root = f"histpk{k:02d}"
     files = {p: t.replace("histpkXX", root) for p, t in files.items()}
     return write_pkg(files, root)
